@@ -374,5 +374,223 @@ theorem remove_spec (b : Bitmap) (h : b.WF) (v : Nat) :
     unfold hi16 lo16 at *
     exact Iff.rfl
 
+/-! ### remove_range -/
+
+/-- the per-container transformation of the `remove_range` loop -/
+def rrF (sk si ek ei : Nat) (c : Container) : Container :=
+  if c.key ≥ sk && c.key ≤ ek then
+    (c.removeRange (if c.key = sk then si else 0) (if c.key = ek then ei else 65535)).1
+  else c
+
+def rrCnt (sk si ek ei : Nat) (c : Container) : Nat :=
+  if c.key ≥ sk && c.key ≤ ek then
+    (c.removeRange (if c.key = sk then si else 0) (if c.key = ek then ei else 65535)).2
+  else 0
+
+theorem removeRangeLoop_eq (sk si ek ei : Nat) : ∀ (b : Bitmap), b.WF →
+    removeRangeLoop sk si ek ei b = (mapDrop (rrF sk si ek ei) b, (b.map (rrCnt sk si ek ei)).sum) := by
+  intro b
+  induction b with
+  | nil => intro _; simp [removeRangeLoop, mapDrop]
+  | cons c cs ih =>
+    intro hwf
+    have hwf' : Bitmap.WF cs := wf_of_dir _ hwf.dir.tail (fun d hd => hwf.ne d (List.mem_cons_of_mem _ hd))
+    have e : ∀ f, mapDrop f (c :: cs) = if (f c).isEmpty then mapDrop f cs else f c :: mapDrop f cs := by
+      intro f
+      simp only [mapDrop, List.map_cons, List.filter_cons]
+      cases (f c).isEmpty <;> simp
+    rw [e]
+    unfold removeRangeLoop
+    rw [ih hwf']
+    simp only [rrF, rrCnt, List.map_cons, List.sum_cons]
+    by_cases hin : (c.key ≥ sk && c.key ≤ ek) = true
+    · simp only [hin, if_true]
+      by_cases hem : (c.removeRange (if c.key = sk then si else 0) (if c.key = ek then ei else 65535)).1.isEmpty = true
+      · simp [hem, rrF, rrCnt]
+      · simp [hem, rrF, rrCnt]
+    · simp only [hin]
+      have := hwf.isEmpty_false c (List.mem_cons_self ..)
+      simp [this, rrF, rrCnt]
+
+def sumLen (b : Bitmap) : Nat := (b.map (fun c => c.store.elems.length)).sum
+
+theorem length_elems (b : Bitmap) : (elems b).length = sumLen b := by
+  induction b with
+  | nil => rfl
+  | cons c cs ih =>
+    simp only [elems, List.flatMap_cons, List.length_append, sumLen, List.map_cons, List.sum_cons]
+    have : (elems cs).length = sumLen cs := ih
+    simp only [elems, sumLen] at this
+    rw [this]; simp [Container.elems]
+
+theorem length_elems_mapDrop (f : Container → Container) (b : Bitmap)
+    (hinv : ∀ c ∈ b, (f c).store.Inv) :
+    (elems (mapDrop f b)).length = (b.map (fun c => (f c).store.elems.length)).sum := by
+  induction b with
+  | nil => rfl
+  | cons c cs ih =>
+    have e : mapDrop f (c :: cs) = if (f c).isEmpty then mapDrop f cs else f c :: mapDrop f cs := by
+      simp only [mapDrop, List.map_cons, List.filter_cons]
+      cases (f c).isEmpty <;> simp
+    rw [e]
+    have ih' := ih (fun d hd => hinv d (List.mem_cons_of_mem _ hd))
+    by_cases hem : (f c).isEmpty = true
+    · rw [if_pos hem, ih']
+      have hi := hinv c (List.mem_cons_self ..)
+      have : (f c).store.elems = [] := by
+        unfold Container.isEmpty at hem
+        rw [Store.isEmpty_spec _ hi] at hem
+        exact List.isEmpty_iff.mp hem
+      simp [this]
+    · rw [if_neg hem]
+      simp only [elems, List.flatMap_cons, List.length_append, List.map_cons, List.sum_cons]
+      have : (elems (mapDrop f cs)).length = _ := ih'
+      simp only [elems] at this
+      rw [this]; simp [Container.elems]
+
+theorem sum_map_add (b : Bitmap) (f g h : Container → Nat) (H : ∀ c ∈ b, f c + g c = h c) :
+    (b.map f).sum + (b.map g).sum = (b.map h).sum := by
+  induction b with
+  | nil => rfl
+  | cons c cs ih =>
+    simp only [List.map_cons, List.sum_cons]
+    have h1 := H c (List.mem_cons_self ..)
+    have := ih (fun d hd => H d (List.mem_cons_of_mem _ hd))
+    omega
+
+theorem filter_split (l : List Nat) (p : Nat → Bool) :
+    (l.filter p).length + (l.filter (fun x => !p x)).length = l.length := by
+  induction l with
+  | nil => rfl
+  | cons a l ih => simp only [List.filter_cons]; cases p a <;> simp <;> omega
+
+theorem Spec_removeIv_count (s : List Nat) (a b : Nat) :
+    (Spec.removeIv s a b).2 + (Spec.removeIv s a b).1.length = s.length := by
+  simp only [Spec.removeIv]
+  have : (fun x => decide (x < a) || decide (b < x)) = (fun x => !(decide (a ≤ x) && decide (x ≤ b))) := by
+    funext x; by_cases h1 : a ≤ x <;> by_cases h2 : x ≤ b <;> simp [h1, h2] <;> omega
+  rw [this]; exact filter_split _ _
+
+/-- `remove_range` on one container, with the bounds the bitmap-level loop passes for key `c.key` -/
+theorem rr_container (c : Container) (hcan : c.store.Canon) (hk : c.key < 65536) (st en : Nat) (hse : st ≤ en)
+    (hen : en < 4294967296) :
+    (rrF (hi16 st) (lo16 st) (hi16 en) (lo16 en) c).key = c.key ∧
+    (rrF (hi16 st) (lo16 st) (hi16 en) (lo16 en) c).store.Canon ∧
+    (∀ x, x ∈ (rrF (hi16 st) (lo16 st) (hi16 en) (lo16 en) c).store.elems ↔
+      x ∈ c.store.elems ∧ ¬ (st ≤ c.key * 65536 + x ∧ c.key * 65536 + x ≤ en)) ∧
+    rrCnt (hi16 st) (lo16 st) (hi16 en) (lo16 en) c +
+      (rrF (hi16 st) (lo16 st) (hi16 en) (lo16 en) c).store.elems.length = c.store.elems.length := by
+  have hinv := Store.canon_inv _ hcan
+  have hlt := Store.elems_lt _ hinv
+  unfold rrF rrCnt
+  by_cases hin : (c.key ≥ hi16 st && c.key ≤ hi16 en) = true
+  · simp only [hin, if_true]
+    have hin' : hi16 st ≤ c.key ∧ c.key ≤ hi16 en := by simpa using hin
+    -- the bounds passed to the container
+    obtain ⟨a, ha⟩ : ∃ a, a = (if c.key = hi16 st then lo16 st else 0) := ⟨_, rfl⟩
+    obtain ⟨z, hz⟩ : ∃ z, z = (if c.key = hi16 en then lo16 en else 65535) := ⟨_, rfl⟩
+    rw [← ha, ← hz]
+    have hrange : a ≤ z ∧ z < 65536 ∧
+        ∀ x, x < 65536 → ((a ≤ x ∧ x ≤ z) ↔ (st ≤ c.key * 65536 + x ∧ c.key * 65536 + x ≤ en)) := by
+      unfold hi16 lo16 at *
+      by_cases k1 : c.key = st / 65536
+      · rw [if_pos k1] at ha
+        by_cases k2 : c.key = en / 65536
+        · rw [if_pos k2] at hz; subst ha; subst hz
+          exact ⟨by omega, by omega, fun x hx => by omega⟩
+        · rw [if_neg k2] at hz; subst ha; subst hz
+          exact ⟨by omega, by omega, fun x hx => by omega⟩
+      · rw [if_neg k1] at ha
+        by_cases k2 : c.key = en / 65536
+        · rw [if_pos k2] at hz; subst ha; subst hz
+          exact ⟨by omega, by omega, fun x hx => by omega⟩
+        · rw [if_neg k2] at hz; subst ha; subst hz
+          exact ⟨by omega, by omega, fun x hx => by omega⟩
+    obtain ⟨r1, r2, r3, r4⟩ := Container.removeRange_spec c hinv a z hrange.1 hrange.2.1
+    refine ⟨r1, r2, ?_, ?_⟩
+    · intro x; rw [r3]
+      constructor
+      · rintro ⟨hx, hn⟩; exact ⟨hx, fun hc => hn ((hrange.2.2 x (hlt x hx)).mpr hc)⟩
+      · rintro ⟨hx, hn⟩; exact ⟨hx, fun hc => hn ((hrange.2.2 x (hlt x hx)).mp hc)⟩
+    · rw [r4]
+      have hrem : (c.removeRange a z).1.store.elems =
+          c.store.elems.filter (fun x => !(decide (a ≤ x) && decide (x ≤ z))) := by
+        apply Arr.sorted_ext _ _ (Store.sorted_elems _ (Store.canon_inv _ r2))
+          (Spec.sorted_filter _ (Store.sorted_elems _ hinv) _)
+        intro x; rw [r3]; simp only [List.mem_filter, Bool.not_eq_true', Bool.and_eq_false_imp,
+          decide_eq_true_eq, decide_eq_false_iff_not]
+        constructor
+        · rintro ⟨hx, hn⟩; exact ⟨hx, fun h1 h2 => hn ⟨h1, h2⟩⟩
+        · rintro ⟨hx, hn⟩; exact ⟨hx, fun hc => hn hc.1 hc.2⟩
+      rw [hrem]
+      show Store.countIn c.store.elems a z + _ = _
+      exact filter_split _ _
+  · simp only [hin]
+    have hin' : ¬ (hi16 st ≤ c.key ∧ c.key ≤ hi16 en) := by simpa using hin
+    refine ⟨rfl, hcan, ?_, by simp⟩
+    intro x
+    constructor
+    · intro hx
+      refine ⟨hx, fun hc => hin' ?_⟩
+      have := hlt x hx
+      unfold hi16 at *; omega
+    · intro hx; exact hx.1
+
+theorem removeRange_spec (b : Bitmap) (h : b.WF) (lo hi : Bound)
+    (hlo : Bound.le u32Max lo) (hhi : Bound.le u32Max hi) :
+    (removeRange b lo hi).1.WF ∧ elems (removeRange b lo hi).1 = (Spec.removeRange u32Max (elems b) lo hi).1 ∧
+    (removeRange b lo hi).2 = (Spec.removeRange u32Max (elems b) lo hi).2 := by
+  have hdir := h.dir
+  unfold removeRange Spec.removeRange
+  cases hc : convertRange u32Max lo hi with
+  | error e =>
+    rw [convertRange_error u32Max lo hi hlo hhi e hc]
+    exact ⟨h, rfl, rfl⟩
+  | ok r =>
+    obtain ⟨st, en⟩ := r
+    rw [convertRange_ok u32Max lo hi hlo hhi st en hc]
+    obtain ⟨hse, hen, _⟩ := Spec.interval_some u32Max lo hi st en (convertRange_ok u32Max lo hi hlo hhi st en hc)
+    simp only []
+    rw [removeRangeLoop_eq _ _ _ _ b h]
+    -- per-container facts
+    have hen' : en < 4294967296 := by unfold u32Max at hen; omega
+    have hst' : st < 4294967296 := by omega
+    have hcf := fun c (hcb : c ∈ b) =>
+      rr_container c (hdir.2 c hcb).2 (hdir.2 c hcb).1 st en hse hen'
+    obtain ⟨m1, m2, _⟩ := mapDrop_spec _ b hdir (fun c hcb => ⟨(hcf c hcb).1, (hcf c hcb).2.1⟩)
+    have helems : elems (mapDrop (rrF (hi16 st) (lo16 st) (hi16 en) (lo16 en)) b) =
+        (Spec.removeIv (elems b) st en).1 := by
+      apply Arr.sorted_ext _ _ (sorted_elems _ m1.dir) (Spec.sorted_removeIv _ (sorted_elems b hdir) _ _)
+      intro y
+      rw [m2 y, Spec.mem_removeIv, mem_elems_iff_exists]
+      constructor
+      · rintro ⟨c, hcb, hy⟩
+        obtain ⟨f1, f2, f3, _⟩ := hcf c hcb
+        have hinv := Store.canon_inv _ (hdir.2 c hcb).2
+        rw [mem_cElems _ (Store.canon_inv _ f2), f1, f3] at hy
+        refine ⟨⟨c, hcb, (mem_cElems c hinv y).mpr ⟨hy.1, hy.2.1⟩⟩, ?_⟩
+        intro hc; apply hy.2.2
+        have : c.key * 65536 + y % 65536 = y := by omega
+        rw [this]; exact hc
+      · rintro ⟨⟨c, hcb, hy⟩, hn⟩
+        obtain ⟨f1, f2, f3, _⟩ := hcf c hcb
+        have hinv := Store.canon_inv _ (hdir.2 c hcb).2
+        rw [mem_cElems c hinv] at hy
+        refine ⟨c, hcb, ?_⟩
+        rw [mem_cElems _ (Store.canon_inv _ f2), f1, f3]
+        refine ⟨hy.1, hy.2, ?_⟩
+        have : c.key * 65536 + y % 65536 = y := by omega
+        rw [this]; exact hn
+    refine ⟨m1, helems, ?_⟩
+    -- the count: Σ removed = |before| - |after|
+    have hsum : (b.map (rrCnt (hi16 st) (lo16 st) (hi16 en) (lo16 en))).sum +
+        (elems (mapDrop (rrF (hi16 st) (lo16 st) (hi16 en) (lo16 en)) b)).length = (elems b).length := by
+      rw [length_elems_mapDrop _ b (fun c hcb => Store.canon_inv _ (hcf c hcb).2.1), length_elems, sumLen]
+      exact sum_map_add b _ _ _ (fun c hcb => (hcf c hcb).2.2.2)
+    have hspec := Spec_removeIv_count (elems b) st en
+    rw [helems] at hsum
+    show (b.map (rrCnt (hi16 st) (lo16 st) (hi16 en) (lo16 en))).sum = (Spec.removeIv (elems b) st en).2
+    omega
+
 end Bitmap
 end Roaring
